@@ -35,9 +35,12 @@ func RunInit(args []string, opts GlobalOptions) error {
 	if err := os.MkdirAll(target, 0755); err != nil {
 		return err
 	}
-	plansPath := filepath.Join(target, plansFileName)
+	// Create the log only when the store has none: getEventsPath falls back to
+	// a legacy events.jsonl, and an empty plans.jsonl next to it would take
+	// precedence and hide everything recorded there.
+	logPath := getEventsPath(target)
 	lockPath := filepath.Join(target, "lock")
-	if err := ensureFileExists(plansPath, 0644); err != nil {
+	if err := ensureFileExists(logPath, 0644); err != nil {
 		return err
 	}
 	if err := ensureFileExists(lockPath, 0644); err != nil {
